@@ -575,6 +575,19 @@ acquire_stop(struct AcquireRuntime* self_)
                 TRACE("[stream: %d] Monitor flushed %llu bytes", i, nbytes);
             } while (nbytes);
         }
+
+        // The workers have exited. Nothing of this acquisition may be
+        // delivered later: not to a client that starts monitoring afterwards
+        // (a new reader joins at the start of the writer's lap, which still
+        // holds this acquisition's frames), not to the next acquisition's
+        // storage (frames an aborting or failing sink left behind), and a
+        // monitor that is no longer polled must not stall the next writer.
+        // So empty the queues and let every reader register afresh.
+        channel_reset(&video->sink.in);
+        channel_reset(&video->filter.in);
+        video->monitor.reader = (struct channel_reader){ 0 };
+        video->sink.reader = (struct channel_reader){ 0 };
+        video->filter.reader = (struct channel_reader){ 0 };
     }
     self->state = DeviceState_Armed;
 
